@@ -212,6 +212,7 @@ type Violation struct {
 	Case     interface{} `json:"case,omitempty"` // in-module harness case
 	Env      []string    `json:"env,omitempty"`
 	Binary   string      `json:"binary,omitempty"`
+	Inject   string      `json:"inject,omitempty"` // VERIF_CRASH_AT=k / VERIF_FAIL_AT=k:errno for the last command (replay script)
 	Count    int         `json:"-"`
 }
 
